@@ -352,10 +352,17 @@ func projectField(fv reflect.Value) J {
 			// (kept inside the specifications' value domain: an IRI no expected value can be equal to)
 			return J{"k": "iri", "iri": "!unassertable-interface-value:" + fv.Elem().Type().String()}
 		}
-		if a := projectItem(fv.Interface()); a["k"] != "nil" {
-			return a
+		a := projectItem(fv.Interface())
+		if a["k"] == "nil" {
+			return nil // a typed nil pointer holds nothing: unset
 		}
-		return nil // a typed nil pointer holds nothing: unset
+		if es, ok := a["e"].([]J); ok && len(es) == 0 && (a["k"] == "list") {
+			return nil // an empty list is the empty normal form: unset
+		}
+		if es, ok := a["e"].([]string); ok && len(es) == 0 && a["k"] == "iris" {
+			return nil
+		}
+		return a
 	case "items":
 		if fv.Len() == 0 {
 			return nil
